@@ -82,12 +82,25 @@ def main():
 
         kind = None
         if a.replay:
-            kind = "sched" if "plan" in json.load(open(a.replay))["payload"] else "jobdir"
+            pl = json.load(open(a.replay))["payload"]
+            kind = "sched" if "plan" in pl else "adopt" if "adopt" in pl else "jobdir"
         rep = None
+        if kind == "adopt":
+            from . import checks_adopt
+            from .common import Report
+
+            rep = Report(a.prop, a.tier, "model_checking")
+            checks_adopt.replay(rep, a.prop, pl)
+            return rep.finish()
         if kind in (None, "sched"):
             rep = checks_sched.run(a.prop, a.tier, a.replay, finish=False)
             if isinstance(rep, int):
                 return rep
+        if kind is None:
+            # the look-up of a job left by an earlier run, interleaved with the last steps of that job (XpmAdopt)
+            from . import checks_adopt
+
+            checks_adopt.run(rep, a.prop, a.tier)
         if kind in (None, "jobdir"):
             # C05: competing launches; C11: the relaunch by a restarted scheduler while the orphan job still runs
             rep = checks_jobdir.run(a.prop, a.tier, a.replay, rep=rep, finish=False)
